@@ -183,13 +183,22 @@ LABEL = {}
 def _alphabet(core, faults, ro):
     alpha = list(core)
     for lab, op in list(faults.items()) + list(ro.items()):
-        LABEL[repr(tuple(op))] = lab
+        LABEL[repr(_canon_op(op))] = lab
         alpha.append(op)
     return alpha
 
 
+def _canon_op(o):
+    """Ops as they are after a JSON round trip (lists) and as written in the menus (tuples) get the same label."""
+    if isinstance(o, (list, tuple)):
+        return tuple(_canon_op(x) for x in o)
+    if isinstance(o, dict):
+        return tuple(sorted((k, _canon_op(v)) for k, v in o.items()))
+    return o
+
+
 def label(op):
-    return LABEL.get(repr(tuple(op)), op[0])
+    return LABEL.get(repr(_canon_op(op)), op[0])
 
 
 def _diff(pre, post):
